@@ -1008,7 +1008,11 @@ def instances(tier: str) -> List[Tuple[str, tuple, dict, Callable[..., Callable[
     I += [("nurikabe", (2, 3, [[1, 0, 0], [0, 0, 2]]), {}, rule_nurikabe),
           ("nurikabe", (3, 3, [[2, 0, 0], [0, 0, 0], [0, 0, -1]]), {}, rule_nurikabe),
           ("nurikabe", (3, 2, [[-1, 0], [0, 0], [0, 3]]), {"unknown_low": 2}, rule_nurikabe),
-          ("nurikabe", (1, 4, [[1, 0, 0, 1]]), {}, rule_nurikabe)]
+          ("nurikabe", (1, 4, [[1, 0, 0, 1]]), {}, rule_nurikabe),
+          # a '?' island that could have one cell: the lower bound option decides
+          ("nurikabe", (2, 3, [[-1, 0, 0], [0, 0, 1]]), {"unknown_low": 2}, rule_nurikabe),
+          ("nurikabe", (2, 3, [[-1, 0, 0], [0, 0, 1]]), {"unknown_low": 3}, rule_nurikabe),
+          ("nurikabe", (2, 3, [[-1, 0, 0], [0, 0, 1]]), {}, rule_nurikabe)]
     # norinori
     I += [("norinori", (2, 3, [[(0, 0), (0, 1), (1, 0)], [(0, 2), (1, 1), (1, 2)]]), {}, rule_norinori),
           ("norinori", (3, 3, [[(0, 0), (0, 1), (0, 2), (1, 0)], [(1, 1), (1, 2), (2, 0), (2, 1), (2, 2)]]), {}, rule_norinori),
@@ -1042,7 +1046,10 @@ def instances(tier: str) -> List[Tuple[str, tuple, dict, Callable[..., Callable[
           ("masyu", (3, 3, [[2, 0, 0], [0, 0, 0], [0, 1, 0]]), {}, rule_masyu),
           ("masyu", (3, 3, [[0, 1, 0], [0, 0, 0], [0, 0, 0]]), {}, rule_masyu)]
     if deep:
-        I += [("masyu", (3, 4, [[2, 0, 0, 0], [0, 0, 0, 1], [0, 0, 0, 0]]), {}, rule_masyu), ("masyu", (4, 3, [[0, 0, 2], [1, 0, 0], [0, 0, 0], [0, 0, 0]]), {}, rule_masyu)]
+        # black circles away from the corner need a 3x4 lattice (17 edges): thorough tier only
+        I += [("masyu", (3, 4, [[2, 0, 0, 0], [0, 0, 0, 1], [0, 0, 0, 0]]), {}, rule_masyu), ("masyu", (4, 3, [[0, 0, 2], [1, 0, 0], [0, 0, 0], [0, 0, 0]]), {}, rule_masyu),
+              ("masyu", (3, 4, [[0, 2, 0, 0], [0, 0, 0, 0], [0, 0, 0, 0]]), {}, rule_masyu), ("masyu", (4, 3, [[0, 0, 0], [2, 0, 0], [0, 0, 0], [0, 0, 0]]), {}, rule_masyu),
+              ("masyu", (3, 4, [[0, 0, 0, 0], [0, 0, 0, 0], [0, 0, 2, 0]]), {}, rule_masyu), ("masyu", (3, 4, [[0, 0, 0, 0], [1, 0, 0, 1], [0, 0, 0, 0]]), {}, rule_masyu)]
     # gokigen
     I += [("gokigen", (2, 2, [[-1, -1, -1], [-1, -1, -1], [-1, -1, -1]]), {}, rule_gokigen),
           ("gokigen", (2, 3, [[0, -1, -1, 1], [-1, 2, -1, -1], [-1, -1, -1, 0]]), {}, rule_gokigen),
@@ -1062,7 +1069,12 @@ def instances(tier: str) -> List[Tuple[str, tuple, dict, Callable[..., Callable[
           ("yajilin", (1, 3, [[">1", "??", ".."]]), {}, rule_yajilin),
           ("yajilin", (1, 3, [["..", "??", "<1"]]), {}, rule_yajilin),
           ("yajilin", (3, 1, [["v1"], ["??"], [".."]]), {}, rule_yajilin),
-          ("yajilin", (3, 1, [[".."], ["??"], ["^1"]]), {}, rule_yajilin)]
+          ("yajilin", (3, 1, [[".."], ["??"], ["^1"]]), {}, rule_yajilin),
+          # clue values that contradict what the free cells force: the clue rule alone makes these unsolvable
+          ("yajilin", (1, 3, [["..", "??", "<0"]]), {}, rule_yajilin),
+          ("yajilin", (3, 1, [[".."], ["??"], ["^0"]]), {}, rule_yajilin),
+          ("yajilin", (1, 3, [[">0", "??", ".."]]), {}, rule_yajilin),
+          ("yajilin", (3, 1, [["v0"], ["??"], [".."]]), {}, rule_yajilin)]
     if deep:
         I += [("yajilin", (2, 4, [["..", "..", "..", ".."], ["..", "..", "..", ".."]]), {}, rule_yajilin),
               ("yajilin", (3, 2, [["..", ".."], ["..", ".."], ["^0", ".."]]), {}, rule_yajilin),
@@ -1098,7 +1110,12 @@ def instances(tier: str) -> List[Tuple[str, tuple, dict, Callable[..., Callable[
     # compass
     I += [("compass", (2, 3, [(0, 0, -1, -1, 1, 1), (1, 2, 1, -1, -1, -1)]), {}, rule_compass),
           ("compass", (3, 2, [(0, 0, 0, 0, -1, -1), (2, 1, -1, 1, 0, -1)]), {}, rule_compass),
-          ("compass", (2, 3, [(0, 1, -1, 1, -1, -1), (1, 0, -1, -1, -1, 2), (0, 2, 0, -1, 0, 0)]), {}, rule_compass)]
+          ("compass", (2, 3, [(0, 1, -1, 1, -1, -1), (1, 0, -1, -1, -1, 2), (0, 2, 0, -1, 0, 0)]), {}, rule_compass),
+          # one count at a time, zero counts that forbid something
+          ("compass", (2, 3, [(1, 0, 1, -1, -1, -1), (0, 2, -1, -1, -1, -1)]), {}, rule_compass),
+          ("compass", (2, 3, [(0, 1, -1, 0, -1, -1), (1, 0, -1, -1, -1, -1)]), {}, rule_compass),
+          ("compass", (2, 3, [(0, 1, -1, -1, 0, -1), (1, 2, -1, -1, -1, -1)]), {}, rule_compass),
+          ("compass", (3, 2, [(1, 0, 0, -1, -1, 0), (2, 1, -1, -1, -1, -1)]), {}, rule_compass)]
     # geradeweg
     I += [("geradeweg", (3, 3, [[0, 0, 0], [0, 0, 0], [0, 0, 2]]), {}, rule_geradeweg),
           ("geradeweg", (3, 3, [[1, 0, 0], [0, 0, 0], [0, 2, 0]]), {}, rule_geradeweg),
